@@ -41,7 +41,7 @@ Variables lower upper : str -> str.
 Variable parse_tree : mapper -> tz -> res (option T * mapper * tz).
 Variable set_label : T -> option str -> T.
 Variable add_comments : T -> list str -> T.
-Variable c : cfg.
+Variable c : nscfg.
 Variable et : bool.
 
 (* the statement parser consumes a prefix of what is left *)
